@@ -234,6 +234,15 @@ func (ex *Exec) callIntrinsic(fr *frame, pos token.Pos, fn *ssa.Function, args [
 		return nil
 	case "CheckFrames":
 		return nil
+	case "ProtectGlobals":
+		for g, cell := range ex.globals {
+			if g.Pkg != nil && strings.HasPrefix(g.Pkg.Pkg.Path(), RepoModule) && g.Name() != "init$guard" && !strings.Contains(g.Pkg.Pkg.Path(), "/verifrt") {
+				ex.protectDeep(cell, "global "+g.String(), map[*value]bool{})
+			}
+		}
+		return nil
+	case "ClockReads":
+		return b.I64(int64(ex.nowCalls))
 	case "IgnorePanics":
 		ex.lim.NoPanicCheck = true
 		return nil
